@@ -331,7 +331,10 @@ dexkv_matches_p(const_dexkv_t dkv, struct dt_dt_s d)
 		} else {
 			cmp = dt_get_year(d.d);
 		}
-		if (dkv->sp.abbr != DT_SPMOD_LONG) {
+		if (dkv->sp.abbr == DT_SPMOD_ABBR) {
+			/* %_y/%_g, the last digit */
+			cmp %= 10;
+		} else if (dkv->sp.abbr != DT_SPMOD_LONG) {
 			/* %y/%g */
 			cmp %= 100;
 		}
